@@ -392,6 +392,7 @@ def run_case(case):
                                                 "observed": repr(res)[:200]})
             per_bin = None
         explained = [False] * len(offers)
+        explain_incomplete = False
         for mi, mp in enumerate(case["mps"]):
             if not offers or per_bin is None:
                 break
@@ -440,6 +441,7 @@ def run_case(case):
                     # nothing is concluded for this measurement (sound, counted)
                     ok_atoms = False
                     counters["associations_not_enumerable"] = counters.get("associations_not_enumerable", 0) + 1
+                    explain_incomplete = True  # the remaining atoms of this measurement were not matched
                     break
                 if not plans:
                     ok_atoms = False
@@ -501,7 +503,7 @@ def run_case(case):
                      {"measurement": mp, "bin": bi, "bin_sizes": bins, "policy": case["policy"],
                       "expected": json.dumps(exp, default=str)[:300],
                       "observed": json.dumps(qgen.to_jsonable(per_bin[bi][mi]), default=str)[:300]})
-        if offers and per_bin is not None and not violations:
+        if offers and per_bin is not None and not violations and not explain_incomplete:
             for di, ex in enumerate(explained):
                 if not ex:
                     viol("offer_matches_no_measurement", {},
